@@ -8,11 +8,134 @@ Third-party code (ecdsa, hashlib, hmac) executes atomically between two package 
 held across a switch. Exploration = iterative preemption bounding (switching away from a thread that could continue
 costs 1; a switch forced by thread completion costs 0), depth-first over choice prefixes, executions run to completion.
 """
+import _thread
 import os
 import sys
 import threading
 
 from .core import HarnessError
+
+import weakref
+
+_RAW_LOCK = _thread.allocate_lock
+_ORIG_FACTORIES = (threading.Lock, threading.RLock)
+_ALL_RLOCKS = weakref.WeakSet()
+_ALL_LOCKS = weakref.WeakSet()     # every CoopLock ever made (orphaned ones are re-initialised after a deadlocked execution)
+
+
+class _DeadlockAbort(BaseException):
+    """raised inside every waiting harness thread once a deadlock has been recorded, so that the threads unwind (and
+    `with lock:` blocks release) instead of staying parked with locks held"""
+
+
+class CoopLock:
+    """Drop-in for threading.Lock. Outside a scheduled harness thread it is an ordinary lock. Inside one, an acquire that
+    cannot succeed is a BLOCKING POINT: the thread leaves the enabled set until the lock is free again, and the scheduler
+    hands the baton to another thread (or reports a deadlock when nobody can run)."""
+
+    def __init__(self):
+        self._l = _RAW_LOCK()
+        _ALL_LOCKS.add(self)
+
+    def acquire(self, blocking=True, timeout=-1):
+        ent = _ACTIVE.get(_thread.get_ident())
+        if ent is None:
+            return self._l.acquire(blocking, timeout)
+        run, tid = ent
+        while True:
+            if self._l.acquire(False):
+                return True
+            if not blocking:
+                return False
+            run.block(tid, self)
+
+    __enter__ = acquire
+
+    def release(self):
+        self._l.release()
+
+    def __exit__(self, *a):
+        self.release()
+
+    def locked(self):
+        return self._l.locked()
+
+    def _at_fork_reinit(self):
+        self._l = _RAW_LOCK()
+
+
+class CoopRLock:
+    """Drop-in for threading.RLock with the same blocking-point behaviour as CoopLock."""
+
+    def __init__(self):
+        self._l = CoopLock()
+        self._owner = None
+        self._count = 0
+        _ALL_RLOCKS.add(self)
+
+    def acquire(self, blocking=True, timeout=-1):
+        me = _thread.get_ident()
+        if self._owner == me:
+            self._count += 1
+            return True
+        ok = self._l.acquire(blocking, timeout)
+        if ok:
+            self._owner, self._count = me, 1
+        return ok
+
+    __enter__ = acquire
+
+    def release(self):
+        if self._owner != _thread.get_ident():
+            raise RuntimeError("cannot release un-acquired lock")
+        self._count -= 1
+        if self._count == 0:
+            self._owner = None
+            self._l.release()
+
+    def __exit__(self, *a):
+        self.release()
+
+    def locked(self):
+        return self._l.locked()
+
+    # protocol used by threading.Condition
+    def _is_owned(self):
+        return self._owner == _thread.get_ident()
+
+    def _release_save(self):
+        state = (self._count, self._owner)
+        self._count, self._owner = 0, None
+        self._l.release()
+        return state
+
+    def _acquire_restore(self, state):
+        self._l.acquire()
+        self._count, self._owner = state
+
+    def _at_fork_reinit(self):
+        self._l = CoopLock()
+        self._owner, self._count = None, 0
+
+
+def install_coop_locks():
+    """threading.Lock / threading.RLock create cooperative locks from now on (call before the package is imported, so
+    that module-level locks of the package are covered too)."""
+    threading.Lock, threading.RLock = CoopLock, CoopRLock
+
+
+class _Baton:
+    """binary semaphore on a raw lock (independent of the patched threading.Lock)"""
+
+    def __init__(self):
+        self._l = _RAW_LOCK()
+        self._l.acquire()
+
+    def release(self):
+        self._l.release()
+
+    def acquire(self, timeout=None):
+        return self._l.acquire(True, -1 if timeout is None else timeout)
 
 WATCH_DIR = None
 
@@ -29,10 +152,12 @@ _MON = {"on": False}
 
 
 def _instr_cb(code, offset):
-    ent = _ACTIVE.get(threading.get_ident())
+    ent = _ACTIVE.get(_thread.get_ident())
     if ent is None:
         return None
     run, tid = ent
+    if not run.instr:
+        return None
     if code.co_filename not in run.watched:
         return sys.monitoring.DISABLE
     run.point(tid, (os.path.basename(code.co_filename), code.co_name, offset))
@@ -55,17 +180,28 @@ class _Run:
         self.instr = instr
         self.bodies, self.watched, self.prefix, self.max_points = bodies, watched, list(prefix), max_points
         self.n = len(bodies)
-        self.sems = [threading.Semaphore(0) for _ in bodies]
-        self.done_sem = threading.Semaphore(0)
+        self.sems = [_Baton() for _ in bodies]
+        self.done_sem = _Baton()
         self.finished = [False] * self.n
+        self.blocked = {}
         self.x = Execution()
         self.current = None
         self.error = None
 
     # ---- scheduling decision; called by the running thread `tid` (still_enabled tells whether it could continue)
     def decide(self, tid, still_enabled, loc):
-        enabled = [t for t in range(self.n) if not self.finished[t]]
+        if self.x.deadlock:
+            # unwinding phase after a recorded deadlock: no more scheduling points; run the remaining threads one by one
+            if still_enabled:
+                return tid
+            rest = [t for t in range(self.n) if not self.finished[t]]
+            return rest[0] if rest else None
+        enabled = [t for t in range(self.n) if not self.finished[t] and (t not in self.blocked or not self.blocked[t].locked())]
         if not enabled:
+            if any(not f for f in self.finished):
+                self.x.deadlock = True       # unfinished threads exist but all of them wait for a held lock
+                self.x.deadlocked = sorted(self.blocked)
+                return "deadlock"
             return None
         if still_enabled:
             order = [tid] + [t for t in enabled if t != tid]
@@ -92,6 +228,20 @@ class _Run:
             self.sems[nxt].release()
             self.sems[tid].acquire()
 
+    def block(self, tid, lock):
+        """called by a harness thread whose lock acquisition cannot succeed now"""
+        self.blocked[tid] = lock
+        nxt = self.decide(tid, False, ("<blocked-on-lock>", tid))
+        if nxt == "deadlock":
+            raise _DeadlockAbort()           # nobody can run: this thread unwinds first, the others follow
+        if nxt != tid:
+            self.current = nxt
+            self.sems[nxt].release()
+            self.sems[tid].acquire()
+        if self.x.deadlock:
+            raise _DeadlockAbort()
+        self.blocked.pop(tid, None)
+
     def thread_main(self, tid):
         self.sems[tid].acquire()
         watched = self.watched
@@ -107,22 +257,24 @@ class _Run:
             return None
 
         try:
-            if self.instr:
-                _ACTIVE[threading.get_ident()] = (self, tid)
-            else:
+            _ACTIVE[_thread.get_ident()] = (self, tid)
+            if not self.instr:
                 sys.settrace(glob)
             try:
                 res = ("ok", self.bodies[tid]())
+            except _DeadlockAbort:
+                res = ("exc", "DEADLOCK: thread %d waits for a lock that is never released" % tid)
             except BaseException as e:
                 res = ("exc", "%s: %s" % (type(e).__name__, str(e)[:200]))
         finally:
-            if self.instr:
-                _ACTIVE.pop(threading.get_ident(), None)
-            else:
+            _ACTIVE.pop(_thread.get_ident(), None)
+            if not self.instr:
                 sys.settrace(None)
         self.x.results[tid] = res
         self.finished[tid] = True
         nxt = self.decide(tid, False, ("<finished>", tid))
+        if nxt == "deadlock":
+            nxt = self.decide(tid, False, None)       # the waiting threads unwind one after the other
         if nxt is None:
             self.done_sem.release()
         else:
@@ -140,10 +292,18 @@ class _Run:
         self.current = first
         self.sems[first].release()
         if not self.done_sem.acquire(timeout=120):
-            self.x.deadlock = True
-            raise HarnessError("schedule did not finish within 120 s (deadlock or runaway): prefix %r" % (self.prefix,))
+            raise HarnessError("schedule did not finish within 120 s (a thread blocks on something the scheduler does not own): prefix %r" % (self.prefix,))
         for t in threads:
             t.join(timeout=10)
+        # every harness thread has ended: a cooperative lock that is still held is an orphan (acquired without
+        # `with`/finally by a thread that raised or was unwound after a deadlock); the next execution in this process
+        # must not inherit it
+        for l in list(_ALL_RLOCKS):
+            if l._owner is not None:
+                l._owner, l._count = None, 0
+        for l in list(_ALL_LOCKS):
+            if l.locked():
+                l._l = _RAW_LOCK()
         if self.error:
             raise HarnessError(self.error)
         return self.x
